@@ -138,6 +138,39 @@ Proof.
     unfold ind. destruct (t_contract t =? c'); lia.
 Qed.
 
+(** the swap-to-native hook: the contract burned [amt] of [from]'s ERC20 balance, the hook mints
+    exactly [amt] of the bound token's min unit to [to] *)
+Lemma hook_to_native_effect s c from to amt s' :
+  exec s (HookToNative c from to amt) = ROk s' -> NoDup (keys (erc20 s)) ->
+  exists sym t, get c (contracts s) = Some sym /\ get sym (tokens s) = Some t /\ 0 < amt /\ amt <= erc20_bal s c from /\
+    let denom := t_minunit t in
+    (forall d, supply_of s' d = supply_of s d + ind (eqb d denom) amt)
+    /\ (forall a d, balance s' a d = balance s a d + ind (eqb (a, d) (to, denom)) amt)
+    /\ (forall c' h, erc20_bal s' c' h = erc20_bal s c' h - ind (eqb (c', h) (c, from)) amt)
+    /\ (forall c', erc20_total s' c' = erc20_total s c' - ind (c =? c') amt).
+Proof.
+  intros E Hnd. apply exec_inv in E. destruct E as [V E]. simpl in E.
+  apply do_hook_inv in E. destruct E as (sym & t & s2 & Hle & Hc & Ht & _ & _ & Hnz & Hm & Hp).
+  exists sym, t. split; [assumption|]. split; [assumption|]. split.
+  { simpl in V. apply Bool.andb_true_iff in V. destruct V as [_ V]. apply Z.leb_le in V. lia. }
+  split; [assumption|]. cbv zeta.
+  set (s1 := upd_erc20 s (set (c, from) (erc20_bal s c from - amt) (erc20 s))) in *.
+  pose proof (bank_mint_sup _ _ _ _ Hm) as Hsup1. pose proof (bank_pay_sup _ _ _ _ _ Hp) as Hsup2.
+  pose proof (bank_mint_bal _ _ _ _ Hm) as Hbal1. pose proof (bank_pay_bal _ _ _ _ _ Hp) as Hbal2.
+  assert (Hbo : bank_only s1 s') by (eapply bank_only_trans; [eapply bank_mint_only|eapply bank_pay_only]; eassumption).
+  repeat split.
+  - intros d. rewrite Hsup2, Hsup1. reflexivity.
+  - intros a d. rewrite Hbal2, Hbal1. unfold balance at 1. simpl. fold (balance s a d). unfold ind.
+    destruct (eqb (a, d) (to, t_minunit t)) eqn:E1; destruct (eqb (a, d) (MODULE, t_minunit t)) eqn:E2; lia.
+  - intros c' h. rewrite (erc20_bal_bank_only _ _ _ _ Hbo). unfold erc20_bal at 1. simpl. rewrite getz_set. unfold ind.
+    destruct (eqb (c', h) (c, from)) eqn:E1.
+    + apply eqb_eq in E1. inversion E1; subst. reflexivity.
+    + fold (erc20_bal s c' h). lia.
+  - intros c'. rewrite (erc20_total_bank_only _ _ _ Hbo). unfold erc20_total at 1. simpl.
+    rewrite ledger_total_set by assumption. fold (erc20_bal s c from). fold (erc20_total s c').
+    unfold ind. destruct (c =? c'); lia.
+Qed.
+
 (** ** the ERC20 ledger keeps distinct keys *)
 Lemma handle_erc20_nodup s m s' : NoDup (keys (erc20 s)) -> handle s m = ROk s' -> NoDup (keys (erc20 s')).
 Proof.
@@ -184,6 +217,10 @@ Proof.
     rewrite He2, He1. simpl. apply keys_set_NoDup. assumption.
   - unfold do_set_params in H. inv_if H. inversion H. assumption.
   - inversion H. assumption.
+  - apply do_hook_inv in H. destruct H as (sym0 & t & s2 & _ & _ & _ & _ & _ & _ & Hm & Hp).
+    apply bank_mint_only, bank_only_fields in Hm. destruct Hm as (_ & _ & _ & _ & _ & He1 & _).
+    apply bank_pay_only, bank_only_fields in Hp. destruct Hp as (_ & _ & _ & _ & _ & He2 & _).
+    rewrite He2, He1. simpl. apply keys_set_NoDup. assumption.
 Qed.
 
 Lemma step_erc20_nodup s m : NoDup (keys (erc20 s)) -> NoDup (keys (erc20 (step s m))).
